@@ -25,4 +25,8 @@ def _twin(kind):
     return inc
 
 
-TWIN = {"dbl": _twin("dbl"), "neg": _twin("neg")}
+def inc_2(a):  # meaning of FnLib "id"; its own name is what a generator would pick to keep two `inc` apart
+    return a
+
+
+TWIN = {"dbl": _twin("dbl"), "neg": _twin("neg"), "id": inc_2}
